@@ -2159,6 +2159,224 @@ macro_rules! cb_names {
 }
 types!(cb_names);
 
+// ------------------------------------------------------------------------------------ guard boundaries
+/// Deterministic boundary lines: for every numeric guard of the constructors and decoders in scope the value at
+/// the largest / smallest accepted point and the one just beyond it (the latter must be refused by the
+/// constructor: `reject`), alone and nested inside larger values. Element values are kept small so that the
+/// lines stay short.
+fn gen_boundaries(quick: bool, emit: &mut dyn FnMut(String)) {
+    let opt_ok = "(28,8,0,1,8,31)";
+    let ti_ok = "(3,0,0,8,x)";
+    let small_q = "(f64,b32,3,[],[[1]])";
+    let rep = |n: usize, v: &str| -> String { format!("[{}]", vec![v; n].join(",")) };
+
+    // --- ProofOptions: every parameter at and beyond its limits, the others at a valid point
+    let nq = [0u64, 1, 2, 254, 255, 256];
+    let bl = [0u64, 1, 2, 3, 4, 64, 128, 129, 256];
+    let gr = [0u64, 1, 31, 32, 33, 255, 256];
+    let fe = [0u64, 1, 2, 3, 4];
+    let ff = [0u64, 1, 2, 3, 4, 8, 16, 17, 32];
+    let rd = [0u64, 1, 2, 3, 7, 15, 31, 63, 127, 254, 255, 256, 511];
+    let mut options: Vec<String> = vec![];
+    for v in nq {
+        options.push(format!("({},8,0,1,8,31)", v));
+    }
+    for v in bl {
+        options.push(format!("(28,{},0,1,8,31)", v));
+    }
+    for v in gr {
+        options.push(format!("(28,8,{},1,8,31)", v));
+    }
+    for v in fe {
+        options.push(format!("(28,8,0,{},8,31)", v));
+    }
+    // folding factor x remainder degree: the full product
+    for f in ff {
+        for r in rd {
+            options.push(format!("(28,8,0,1,{},{})", f, r));
+        }
+    }
+    // all extremes together
+    for q in [1u64, 255] {
+        for b in [2u64, 128] {
+            for g in [0u64, 32] {
+                for f in [2u64, 16] {
+                    for r in [0u64, 255] {
+                        options.push(format!("({},{},{},3,{},{})", q, b, g, f, r));
+                    }
+                }
+            }
+        }
+    }
+    for o in &options {
+        emit(format!("enc options {}", o));
+    }
+    for o in options.iter().step_by(7) {
+        emit(format!("enc opt(options) S{}", o));
+        emit(format!("enc context (f64,{},{})", ti_ok, o));
+    }
+
+    // --- TraceInfo: widths, random elements, lengths, metadata
+    let mut infos: Vec<String> = vec![];
+    for (m, a) in [(0u64, 0u64), (1, 0), (2, 0), (254, 0), (255, 0), (256, 0), (1, 1), (1, 253), (1, 254), (1, 255), (254, 1), (254, 2), (255, 1), (127, 128), (128, 127), (128, 128), (0, 255)] {
+        let rands: Vec<u64> = if a == 0 { vec![0, 1] } else { vec![0, 1, 254, 255, 256] };
+        for r in rands {
+            infos.push(format!("({},{},{},8,x)", m, a, r));
+        }
+    }
+    let lens: [u128; 14] = [0, 1, 4, 7, 8, 9, 16, 1 << 31, (1 << 32) - 1, 1 << 32, 1 << 62, 1 << 63, (1 << 63) + 1, 1 << 64];
+    for l in lens {
+        infos.push(format!("(3,0,0,{},x)", l));
+        infos.push(format!("(254,1,0,{},x01)", l));
+    }
+    for k in 3..=63u32 {
+        infos.push(format!("(1,0,0,{},x)", 1u128 << k));
+    }
+    for o in &infos {
+        emit(format!("enc traceinfo {}", o));
+    }
+    for n in [0usize, 1, 255, 256, 65534, 65535, 65536] {
+        let meta = xhex(&vec![0x5au8; n]);
+        emit(format!("enc traceinfo (255,0,0,8,{})", meta));
+        emit(format!("enc traceinfo (1,254,255,{},{})", 1u64 << 63, meta));
+        if n >= 65534 {
+            emit(format!("enc context (f128,(1,254,0,8,{}),(255,128,32,3,16,255))", meta));
+        }
+    }
+    emit(format!("enc vec(traceinfo) [{}]", ["(255,0,0,8,x)", "(1,254,0,9223372036854775808,x00)", "(254,1,255,8,x)", "(1,0,0,8,x)"].join(",")));
+
+    // --- Context: trace length x blowup against u32::MAX (the largest accepted LDE domain is 2^31), every
+    //     power of two on both sides of the limit, for the three fields
+    let mut contexts: Vec<String> = vec![];
+    for f in ["f64", "f62", "f128"] {
+        for k in 3..=34u32 {
+            for b in [2u64, 4, 8, 16, 32, 64, 128] {
+                let lde = k + b.trailing_zeros();
+                let near = (29..=34).contains(&lde) || k <= 4 || k >= 30;
+                if (f == "f64" && (near || !quick)) || (f != "f64" && (30..=33).contains(&lde)) {
+                    contexts.push(format!("({},(2,0,0,{},x),(28,{},0,1,8,31))", f, 1u64 << k, b));
+                }
+            }
+        }
+    }
+    // with everything else at its limits too
+    for (k, b) in [(30u32, 2u64), (28, 8), (24, 128), (31, 2), (29, 8), (25, 128), (3, 2), (3, 128)] {
+        contexts.push(format!("(f128,(254,1,0,{},xff),(255,{},32,3,16,255))", 1u64 << k, b));
+        contexts.push(format!("(f62,(1,254,255,{},x),(1,{},0,2,2,0))", 1u64 << k, b));
+    }
+    for c in &contexts {
+        emit(format!("enc context {}", c));
+    }
+    // nested: inside tuples and whole proofs (one query set per trace segment)
+    for c in &contexts {
+        let lde_edge = c.contains("1073741824),(28,2,") || c.contains("268435456),(28,8,") || c.contains("16777216),(28,128,") || c.contains("(f128,(254,1") || c.contains("(f62,(1,254");
+        if !lde_edge {
+            continue;
+        }
+        let nseg = if c.contains(",(2,0,0,") { 1 } else { 2 };
+        emit(format!("enc tup(context,queries) ({},{})", c, small_q));
+        for (nuq, nonce, gkr) in [(0u64, 0u128, "N".to_string()), (255, (1u128 << 64) - 1, format!("S{}", xhex(&vec![7u8; 128])))] {
+            emit(format!(
+                "enc proof ({},{},D,{},{},D,D,{},{})",
+                c,
+                nuq,
+                rep(nseg, small_q),
+                small_q,
+                nonce,
+                gkr
+            ));
+        }
+    }
+    // a proof literal with too few / too many query sets is not decodable (documented exemption), boundary
+    // values of the remaining scalar fields
+    emit(format!("enc proof ((f64,{},{}),256,D,[{}],{},D,D,0,N)", ti_ok, opt_ok, small_q, small_q));
+    emit(format!("enc proof ((f64,{},{}),1,D,[{}],{},D,D,18446744073709551616,N)", ti_ok, opt_ok, small_q, small_q));
+    for n in [0usize, 1, 127, 128, 16383, 16384] {
+        emit(format!("enc proof ((f64,{},{}),1,D,[{}],{},D,D,1,S{})", ti_ok, opt_ok, small_q, small_q, xhex(&vec![1u8; n])));
+    }
+
+    // --- Commitments: the 65535-byte limit of the writer, for every digest size
+    let d32 = format!("x{}", "00".repeat(32));
+    let d24 = format!("x{}", "11".repeat(24));
+    for (k, d, maxok) in [("b32", d32.as_str(), 2047usize), ("b24", d24.as_str(), 2730), ("e62", "[1,2,3,4]", 2114), ("e64", "[1,2,3,4]", 2047)] {
+        for total in [1usize, 2, maxok - 1, maxok, maxok + 1] {
+            let nt = if total >= 3 { 2 } else { 0 };
+            let nf = total - 1 - nt;
+            emit(format!("enc commitments ({},{},{},{})", k, rep(nt, d), d, rep(nf, d)));
+            if nf >= 1 {
+                emit(format!("cparse ({},{},{},{})", k, rep(nt, d), d, rep(nf, d)));
+            }
+        }
+    }
+
+    // --- Queries / Table: 254, 255, 256 rows and columns, node vectors of 255 / 256 entries
+    for (ek, v) in [("f64", "1"), ("q128", "(1,2)"), ("c64", "(1,2,3)")] {
+        for (r, c) in [(1usize, 1usize), (254, 1), (255, 1), (256, 1), (1, 254), (1, 255), (1, 256), (255, 2), (2, 255)] {
+            let vals = rep(r, &rep(c, v));
+            emit(format!("qparse ({},b32,10,[],{})", ek, vals));
+            emit(format!("enc queries ({},b32,10,[],{})", ek, vals));
+        }
+    }
+    if !quick {
+        emit(format!("qparse (f64,b24,12,[],{})", rep(255, &rep(255, "3"))));
+        emit(format!("qparse (f128,b32,12,[],{})", rep(255, &rep(255, "3"))));
+    }
+    for nv in [0usize, 1, 254, 255, 256] {
+        emit(format!("qparse (f64,b24,8,{},[[1,2]])", rep(nv, "[]")));
+        emit(format!("qparse (f64,b24,8,[{}],[[1,2]])", rep(nv, &d24)));
+        emit(format!("enc queries (f64,b24,8,[[],{}],[[1,2]])", rep(nv, &d24)));
+    }
+    for depth in [0u64, 1, 40, 255, 256] {
+        emit(format!("enc queries (f64,b32,{},[],[[1]])", depth));
+    }
+    emit("enc queries (f64,b32,3,[],[])".to_string());
+    emit("enc queries (f64,b32,3,[],[[]])".to_string());
+    emit("enc queries (f64,b32,3,[],[[1],[1,2]])".to_string());
+
+    // --- OodFrame: 65535 bytes of trace states / evaluations for every element size, Lagrange frames of
+    //     254 / 255 rows, one column
+    for (ek, v, el) in [("f64", "1", 8usize), ("f128", "2", 16), ("c64", "(1,2,3)", 24), ("q128", "(1,2)", 32)] {
+        let wmax = (65535 - 1) / (2 * el);
+        for w in [1usize, wmax - 1, wmax, wmax + 1] {
+            emit(format!("enc oodframe ({},S({},{},{},N),S[{}])", ek, w.min(3), rep(w, v), rep(w, v), v));
+            if w <= wmax {
+                emit(format!("oparse ({},S({},{},{},N),S[{}])", ek, w.min(255), rep(w, v), rep(w, v), v));
+            }
+        }
+        let emax = 65535 / el;
+        for n in [1usize, emax - 1, emax, emax + 1] {
+            emit(format!("enc oodframe ({},S(1,[{}],[{}],N),S{})", ek, v, v, rep(n, v)));
+            if n <= emax {
+                emit(format!("oparse ({},S(1,[{}],[{}],N),S{})", ek, v, v, rep(n, v)));
+            }
+        }
+        for l in [0usize, 1, 64, 253, 254, 255, 256] {
+            emit(format!("enc oodframe ({},S(1,[{},{}],[{},{}],S{}),S[{}])", ek, v, v, v, v, rep(l, v), v));
+            emit(format!("oparse ({},S(1,[{},{}],[{},{}],S{}),S[{}])", ek, v, v, v, v, rep(l, v), v));
+        }
+    }
+    emit("enc oodframe (f64,S(1,[1],[1,2],N),S[1])".to_string());
+    emit("enc oodframe (f64,S(1,[1],[1],N),S[])".to_string());
+    emit("enc oodframe (f64,N,N)".to_string());
+
+    // --- collections: length prefixes at the vint64 boundaries
+    let mut lens = vec![0usize, 1, 127, 128, 129, 16383, 16384, 16385];
+    if !quick {
+        lens.extend([2097151usize, 2097152]);
+    }
+    for n in lens {
+        emit(format!("enc bytes {}", xhex(&vec![0x61u8; n])));
+        emit(format!("enc str {}", xhex(&vec![0x61u8; n])));
+        emit(format!("enc opt(bytes) S{}", xhex(&vec![0x61u8; n])));
+        if n <= 16385 {
+            emit(format!("enc vec(u16) {}", rep(n, "513")));
+            emit(format!("enc vec(unit) {}", rep(n, "U")));
+            let keys: Vec<String> = (0..n.min(70000)).map(|i| format!("{}", i)).collect();
+            emit(format!("enc set(u16) [{}]", keys.join(",")));
+        }
+    }
+}
+
 // ------------------------------------------------------------------------------------ Prop
 pub struct C12;
 
@@ -2169,6 +2387,7 @@ impl Prop for C12 {
     fn gen(&self, rng: &mut Rng, tier: Tier, n: usize, emit: &mut dyn FnMut(String)) {
         let quick = tier == Tier::Quick;
         let per = default_n(tier, 24, 240, n);
+        gen_boundaries(quick, emit);
         // the size encoding: every boundary 2^(7k) +- 1, 2^(8k) +- 1
         for v in int_bounds(64) {
             emit(format!("vint {}", v));
@@ -2298,7 +2517,11 @@ impl Prop for C12 {
         format!("{}.{}:{}", t[0], ty, o)
     }
     fn rule(&self) -> &'static str {
-        "values built through the public constructors from boundary-heavy descriptions (0, 1, 2^(7k)±1, 2^(8k)±1, 255/256 widths and counts, \
+        "a deterministic sweep of every numeric guard of the constructors and decoders (each value at the smallest / largest accepted point and \
+         just beyond it: ProofOptions parameters and the folding x remainder product, TraceInfo widths / random elements / lengths 2^3..2^63 / \
+         metadata 65535, Context trace length x blowup around the 2^31 LDE limit for all fields, alone and nested in tuples and whole proofs, \
+         Commitments / OodFrame / FRI remainder byte limits, 254-256 rows, columns and node vectors, vint64 length prefixes), then \
+         values built through the public constructors from boundary-heavy descriptions (0, 1, 2^(7k)±1, 2^(8k)±1, 255/256 widths and counts, \
          65535/65536-byte metadata and commitment blocks, 254/255/256 rows, columns, node vectors, maximal FRI remainders, empty and nested \
          collections), encoded, decoded through SliceReader, Cursor and ReadAdapter (1-byte, straddling, whole, mixed chunkings), plus truncated / \
          extended / byte-substituted encodings; a case is non-trivial when its op line is distinct"
